@@ -102,8 +102,12 @@ def run_job(job):
             base_users += [("dora", big), ("dora", big[:65535]), ("dora", big[:1]), ("dora", hashlib.sha256(big).digest()), ("dora", hashlib.sha384(big).digest()),
                            ("dora", hashlib.sha512(big).digest())]
             same_tape = []
+            # the two servers also in "restarted" form (setup saved to bytes and restored): a restored server is the SAME server
+            for h_ in ("S1", "S2"):
+                b_ = s.ser(h_).data
+                s.de("setup", bytes.fromhex(b_), out=h_ + "r")
             for u, pw in base_users:
-                for srv in ("S1", "S2"):
+                for srv in ("S1", "S2", "S1r", "S2r"):
                     s.rng("fixed", proto.H("c16-fixed-client-tape", su, wi))
                     a = s.cmd("creg_start", rng="fixed", pw=pw, out_state="st.cs", out_msg="st.rq")
                     b = s.cmd("sreg_start", setup=srv, req="st.rq", cred=u if isinstance(u, bytes) else u.encode(), out="st.rr")
@@ -116,14 +120,21 @@ def run_job(job):
                             V("control: registration failed", str([dict(x) for x in (a, b, c) if x.failed])[:300])
                         continue
                     stats["registrations"] += 1
-                    same_tape.append(((u, pw, srv), c.export_key, bx(c.msg)[s.sz.npk + s.sz.nh:s.sz.npk + s.sz.nh + 32]))
+                    same_tape.append(((u, pw, srv[:2]), c.export_key, bx(c.msg)[s.sz.npk + s.sz.nh:s.sz.npk + s.sz.nh + 32]))
             if same_tape:
                 if len({n for _, _, n in same_tape}) != 1:
                     V("control: identical client tapes did not give identical envelope nonces", "")
                 byk = {}
+                bywho = {}
                 for who, ek, _ in same_tape:
-                    byk.setdefault(ek, []).append(who)
+                    byk.setdefault(ek, set()).add(who)
+                    bywho.setdefault(who, set()).add(ek)
+                for who, eks in bywho.items():
+                    if len(eks) > 1:
+                        V("the same user, password, server and client randomness gave different export keys before and after the server setup was saved and restored",
+                          "%s" % (who,))
                 for ek, whos in byk.items():
+                    whos = sorted(whos, key=repr)
                     if len(whos) > 1:
                         V("different user / password / server but the same export key (identical client randomness)",
                           "export key %s shared by %s" % (ek, [(repr(u) if len(u) < 30 else repr(u[:8]) + "..(%d)" % len(u), proto.short(p_), sv) for u, p_, sv in whos]))
